@@ -81,6 +81,7 @@ type Guard struct {
 	Name   string // optional label
 	In     string // optional: restrict to call sites inside this function
 	Line   int
+	Hits   int // number of sites this guard produced an obligation for (0 = the guard is vacuous: reported)
 }
 
 type GhostVar struct {
